@@ -25,6 +25,9 @@ def omega(d):  # xpxp symplectic form
 
 def check_state(pq, st, kind, where, desc, fails, pure_expected=None):
     key = lambda k: f"{kind}:{k}"
+    if type(st).__name__ == "FockState" and kind in ("PureFock", "Passive"):
+        # a pure simulator handed back a mixed state (imperfect post-selection): the density-matrix invariants apply
+        return check_state(pq, st, "Fock", where + f" [{kind} simulator]", desc, fails, pure_expected)
     try:
         if kind == "Gaussian":
             cov = np.asarray(st.xpxp_covariance_matrix); mean = np.asarray(st.xpxp_mean_vector)
@@ -154,6 +157,13 @@ def gen_program(pq, rng, kind, d, cutoff):
                          (lambda: pq.fermionic.IsingXX(phi=u(0, 3)), adj) if hasattr(pq.fermionic, "IsingXX") else (lambda: pq.Phaseshifter(phi=0.1), m1)]
         f, modes = opts[int(rng.integers(0, len(opts)))]
         ins.append((f, modes))
+    if kind in ("PureFock", "Passive") and d >= 2 and rng.random() < 0.3:
+        # an imperfect post-selection as the LAST instruction: the remaining modes are left in a mixed state, which must be a
+        # Hermitian positive semidefinite matrix also when the amplitudes are complex
+        M = np.triu(rng.uniform(0.05, 1.0, size=(3, 3))); M = M / M.sum(axis=0)
+        mm = (int(rng.integers(0, d)),)
+        cnt = int(rng.integers(0, 2))
+        ins.append((lambda M=M, cnt=cnt: pq.ImperfectPostSelectPhotons(photon_counts=(cnt,), detector_efficiency_matrix=M), mm))
     return ins, pure
 
 
@@ -194,6 +204,8 @@ def monitor(ctx, n_programs):
             shots = None if (is_meas and kind in ("PureFock", "Passive")) or not any(isinstance(x, Measurement) for x in built[:k]) else 2
             if kind == "Gaussian" and any(isinstance(x, Measurement) for x in built[:k]):
                 shots = 2
+            if any(type(x).__name__ == "ImperfectPostSelectPhotons" for x in built[:k]):
+                shots = 2       # not available with shots=None
             try:
                 res = sims[kind](d=d, config=pq.Config(cutoff=cutoff, hbar=hbar, seed_sequence=int(rng.integers(1, 10 ** 6)))).execute(pq.Program(instructions=prefix), shots=shots)
             except Exception as e:
@@ -207,7 +219,7 @@ def monitor(ctx, n_programs):
             ctx.count(("prefix", it, k), nontrivial=k >= 2)
             dist[kind] = dist.get(kind, 0) + 1
             where = f"instruction {k} ({type(last).__name__}{tuple(last.modes)})"
-            pure_now = pure0 and not any(type(x).__name__ in ("Attenuator", "Loss", "HeterodyneMeasurement", "HomodyneMeasurement", "Thermal") for x in built[:k])
+            pure_now = pure0 and not any(type(x).__name__ in ("Attenuator", "Loss", "HeterodyneMeasurement", "HomodyneMeasurement", "Thermal", "ImperfectPostSelectPhotons") for x in built[:k])
             wsum = 0.0
             for b in res.branches:
                 wsum += float(b.frequency)
